@@ -97,6 +97,27 @@ func c14Gen(g *Gen) {
 				cont("i1", "who", "$fu", "$ka", 0, "-")
 				lines = append(lines, fmt.Sprintf("mint cursor fe i0 %s age=0 callid=@ca method=- skind=%s count=1 limit=40", id, kindOf[b]))
 				cont("i1", b, "$fe", "$ka", 0, "-")
+				// externalized continuations on an instance with an external-location config: tokens on the
+				// pointer batch, on the uploaded batch, or both — route's own (b), foreign (a) or absent.
+				// The uploaded batch's tokens supersede the pointer's; whichever cursor decides must be b's.
+				lines = append(lines, tkInstLine("x0", key, 100000, Pick(r, []int{0, 4096}), false, "wx", rh, hk)+" ext=1")
+				type tok struct{ cur, call string }
+				own, foreign, none := tok{"$cb", "$kb"}, tok{"$ca", "$ka"}, tok{"-", "-"}
+				for _, p := range []tok{none, own, foreign} {
+					for _, u := range []tok{none, own, foreign} {
+						if p == none && u == none && r.Chance(50) {
+							continue
+						}
+						lines = append(lines, fmt.Sprintf("cont x0 %s %s cur=%s call=%s cancel=%d sess=- out=- ptr=1 xcur=%s xcall=%s in=%s",
+							id, b, p.cur, p.call, b2i(r.Chance(10)), u.cur, u.call, Pick(r, []string{"i64", "i32"})))
+					}
+				}
+				// mixed: foreign cursor uploaded with the route's call token, and the reverse; a pointer on a server without the config
+				lines = append(lines,
+					fmt.Sprintf("cont x0 %s %s cur=$cb call=$kb cancel=0 sess=- out=- ptr=1 xcur=$ca xcall=- in=i64", id, b),
+					fmt.Sprintf("cont x0 %s %s cur=$ca call=$ka cancel=0 sess=- out=- ptr=1 xcur=$cb xcall=- in=i64", id, b),
+					fmt.Sprintf("cont x0 %s %s cur=- call=$kb cancel=0 sess=- out=- ptr=1 xcur=$ca2 xcall=- in=i64", id, b),
+					fmt.Sprintf("cont i1 %s %s cur=$cb call=$kb cancel=0 sess=- out=- ptr=1 xcur=$ca xcall=$ka in=i64", id, b))
 				// both streams still continue on their own routes
 				cont("i1", a, "$ca2", "$ka", 0, "ca3")
 				cont("i1", b, "$cb", "$kb", 0, "cb2")
